@@ -145,21 +145,7 @@ func verdictRead(op *ReadOp, data []byte, b *baseline, cs *Case, o *obs) (int, s
 	if o.panicked {
 		return vViolation, "panic/" + o.kind, fmt.Sprintf("panic %s in %s", o.kind, o.frame)
 	}
-	same := func(prefix string) (int, string, string) {
-		if o.err != nil {
-			return vViolation, prefix + "error-where-contiguous-run-succeeds", fmt.Sprintf("returned error %q; the contiguous run of the same operation on the same bytes succeeds", o.err)
-		}
-		if !reflect.DeepEqual(o.val, b.val) {
-			return vViolation, prefix + "value-differs", fmt.Sprintf("returned nil error and value %s; the contiguous run returns %s", show(o.val), show(b.val))
-		}
-		if b.n >= 0 && o.n != b.n {
-			return vViolation, prefix + "byte-count-differs", fmt.Sprintf("reported %d bytes; the contiguous run reports %d", o.n, b.n)
-		}
-		if o.consumed != b.consumed {
-			return vViolation, prefix + "residual-stream-differs", fmt.Sprintf("took %d bytes from the stream; the contiguous run takes %d", o.consumed, b.consumed)
-		}
-		return vOK, "", ""
-	}
+	same := func(prefix string) (int, string, string) { return sameAs(b, o, prefix) }
 	if cs.Mode != "fault" {
 		return same("short-reads/")
 	}
@@ -169,8 +155,14 @@ func verdictRead(op *ReadOp, data []byte, b *baseline, cs *Case, o *obs) (int, s
 	}
 	switch {
 	case op.ToEOF && cs.K < len(data) && cs.Err == "eof":
-		// the value is delimited by the end of the stream: a stream that ends earlier is a shorter value
-		return vUnspec, "", ""
+		// The value is delimited by the end of the stream, so a stream that ends after k bytes IS the
+		// stream data[:k]; whether its last bytes arrive together with io.EOF or before it is one more way
+		// of delivering that stream, and the result must be the one of the contiguous read of data[:k].
+		pb := prefixBaseline(op, data[:cs.K])
+		if pb == nil {
+			return vUnspec, "", "" // the shorter stream is not a value of this operation
+		}
+		return sameAs(pb, o, "end-of-stream-delivery/")
 	case cs.K < need:
 		if o.err == nil && cs.Style == 2 {
 			if v, _, _ := same(""); v == vOK {
@@ -189,6 +181,35 @@ func verdictRead(op *ReadOp, data []byte, b *baseline, cs *Case, o *obs) (int, s
 		return vUnspec, "", ""
 	default:
 		return same("fault-after-value/")
+	}
+}
+
+// prefixBaseline is the contiguous, fault-free run of an end-of-stream-delimited operation on a shorter stream.
+func prefixBaseline(op *ReadOp, st []byte) *baseline {
+	cs := Case{Mode: "contiguous", Source: "plain"}
+	o := execRead(-1, op, st, &cs, nil, 0, false)
+	if o.panicked || o.err != nil {
+		return nil
+	}
+	return &baseline{o.val, o.n, o.consumed}
+}
+
+// sameAs demands the result b of a contiguous run: value, reported count, bytes taken from the stream.
+func sameAs(b *baseline, o *obs, prefix string) (int, string, string) {
+	{
+		if o.err != nil {
+			return vViolation, prefix + "error-where-contiguous-run-succeeds", fmt.Sprintf("returned error %q; the contiguous run of the same operation on the same bytes succeeds", o.err)
+		}
+		if !reflect.DeepEqual(o.val, b.val) {
+			return vViolation, prefix + "value-differs", fmt.Sprintf("returned nil error and value %s; the contiguous run returns %s", show(o.val), show(b.val))
+		}
+		if b.n >= 0 && o.n != b.n {
+			return vViolation, prefix + "byte-count-differs", fmt.Sprintf("reported %d bytes; the contiguous run reports %d", o.n, b.n)
+		}
+		if o.consumed != b.consumed {
+			return vViolation, prefix + "residual-stream-differs", fmt.Sprintf("took %d bytes from the stream; the contiguous run takes %d", o.consumed, b.consumed)
+		}
+		return vOK, "", ""
 	}
 }
 
